@@ -89,3 +89,212 @@ pub fn current_bytes() -> (r: &'static [u8])
     a
 }
 } // verus!
+verus! {
+// TRUSTED contracts of smallvec (continued)
+pub assume_specification<A: smallvec::Array> [<smallvec::IntoIter<A> as Iterator>::next] (it: &mut smallvec::IntoIter<A>) -> (r: Option<A::Item>)
+    ensures
+        svi_view(old(it)).len() > 0 ==> r == Some(svi_view(old(it))[0]) && svi_view(final(it)) == svi_view(old(it)).drop_first(),
+        svi_view(old(it)).len() == 0 ==> r is None && svi_view(final(it)) == svi_view(old(it));
+pub assume_specification<A: smallvec::Array> [<smallvec::IntoIter<A> as DoubleEndedIterator>::next_back] (it: &mut smallvec::IntoIter<A>) -> (r: Option<A::Item>)
+    ensures
+        svi_view(old(it)).len() > 0 ==> r == Some(svi_view(old(it)).last()) && svi_view(final(it)) == svi_view(old(it)).drop_last(),
+        svi_view(old(it)).len() == 0 ==> r is None && svi_view(final(it)) == svi_view(old(it));
+pub assume_specification<A: smallvec::Array> [smallvec::SmallVec::<A>::extend_from_slice] (v: &mut smallvec::SmallVec<A>, s: &[A::Item])
+    where A::Item: Copy
+    ensures sv_view(final(v)) == sv_view(old(v)) + s@;
+
+/// segments joined with '/'
+pub open spec fn join_slash(l: Seq<Seq<u8>>) -> Seq<u8>
+    decreases l.len()
+{
+    if l.len() == 0 { sq0() } else if l.len() == 1 { l[0] } else { join_slash(l.drop_last()) + sq1(47) + l.last() }
+}
+/// does the rendering of the normalized sequence need a "./" shield (same rule as push)?
+pub open spec fn norm_shield(n: Seq<Seq<u8>>, abs: bool, fa: bool, at0: bool) -> bool {
+    n.len() > 0 && ((n[0].len() == 0 && !(fa && abs)) || (at0 && has_colon(n[0])))
+}
+/// text after in-place normalisation
+pub open spec fn normalize_text(p: Seq<u8>, fa: bool, at0: bool) -> Seq<u8> {
+    let n = norm_segs(p);
+    p.subrange(0, p_first_off(p)) + (if norm_shield(n, p_is_abs(p), fa, at0) { sq2(46, 47) } else { sq0() }) + join_slash(n)
+}
+pub proof fn lemma_join_push(l: Seq<Seq<u8>>, s: Seq<u8>)
+    ensures join_slash(l.push(s)) == (if l.len() == 0 { s } else { join_slash(l) + sq1(47) + s }),
+{
+    assert(l.push(s).drop_last() =~= l);
+}
+} // verus!
+
+verus! {
+/// trait-bound-free name for "the texts an iterator still yields" (see axiom_view_texts in path.rs)
+pub uninterp spec fn view_texts<T>(t: &T) -> Seq<Seq<u8>>;
+} // verus!
+
+verus! {
+pub proof fn lemma_cs_is_csqf_dummy() { }
+
+pub proof fn lemma_norm_step_shape(st: Seq<Seq<u8>>, s: Seq<u8>, relative: bool)
+    requires forall|i: int| 0 <= i < st.len() ==> seg_shape(#[trigger] st[i]), seg_shape(s),
+    ensures forall|i: int| 0 <= i < norm_step(st, s, relative).len() ==> seg_shape(#[trigger] norm_step(st, s, relative)[i]),
+{ }
+} // verus!
+verus! {
+pub open spec fn all_segs(l: Seq<Seq<u8>>) -> bool { forall|i: int| 0 <= i < l.len() ==> seg_shape(#[trigger] l[i]) }
+
+pub proof fn lemma_split_shape(p: Seq<u8>, i: int)
+    requires path_shape(p), 0 <= i <= p.len(),
+    ensures all_segs(split_from(p, i)),
+    decreases p.len() - i
+{
+    lemma_first_of_bounds(p, i, C_SLASH);
+    let e = first_of(p, i, C_SLASH);
+    let e2 = if e >= p.len() { p.len() as int } else { e };
+    let s0 = p.subrange(i, e2);
+    assert(seg_shape(s0)) by { assert(forall|j: int| 0 <= j < s0.len() ==> #[trigger] s0[j] == p[i + j]); }
+    if e < p.len() {
+        lemma_split_shape(p, e + 1);
+        let rest = split_from(p, e + 1);
+        let all = split_from(p, i);
+        assert(all =~= seq![s0] + rest);
+        assert forall|k: int| 0 <= k < all.len() implies seg_shape(#[trigger] all[k]) by {
+            if k > 0 { assert(all[k] == rest[k - 1]); }
+        }
+    }
+}
+pub proof fn lemma_segs_shape(p: Seq<u8>)
+    requires path_shape(p),
+    ensures all_segs(segs(p)),
+{
+    if !p_is_empty(p) { lemma_split_shape(p, p_first_off(p)); }
+}
+pub proof fn lemma_norm_fold_shape(l: Seq<Seq<u8>>, relative: bool)
+    requires all_segs(l),
+    ensures all_segs(norm_fold(l, relative)),
+    decreases l.len()
+{
+    if l.len() > 0 {
+        lemma_norm_fold_shape(l.drop_last(), relative);
+        lemma_norm_step_shape(norm_fold(l.drop_last(), relative), l.last(), relative);
+    }
+}
+pub proof fn lemma_join_shape(l: Seq<Seq<u8>>)
+    requires all_segs(l),
+    ensures path_shape(join_slash(l)),
+    decreases l.len()
+{
+    if l.len() > 1 {
+        lemma_join_shape(l.drop_last());
+        let a = join_slash(l.drop_last());
+        let r = join_slash(l);
+        assert forall|j: int| 0 <= j < r.len() implies !cls(C_QF, #[trigger] r[j]) by {
+            if j < a.len() { assert(r[j] == a[j]); } else if j == a.len() { } else { assert(r[j] == l.last()[j - a.len() - 1]); }
+        }
+    } else if l.len() == 1 {
+        assert(seg_shape(l[0]));
+    }
+}
+pub proof fn lemma_normalize_shape(p: Seq<u8>, fa: bool, at0: bool)
+    requires path_shape(p),
+    ensures path_shape(normalize_text(p, fa, at0)),
+{
+    lemma_segs_shape(p);
+    lemma_norm_fold_shape(segs(p), !p_is_abs(p));
+    let n = norm_segs(p);
+    lemma_join_shape(n);
+    let j = join_slash(n);
+    let pre = p.subrange(0, p_first_off(p));
+    let sh = if norm_shield(n, p_is_abs(p), fa, at0) { sq2(46, 47) } else { sq0() };
+    let r = normalize_text(p, fa, at0);
+    assert forall|k: int| 0 <= k < r.len() implies !cls(C_QF, #[trigger] r[k]) by {
+        if k < pre.len() { assert(r[k] == p[k]); }
+        else if k < pre.len() + sh.len() { assert(r[k] == sh[k - pre.len()]); }
+        else { assert(r[k] == j[k - pre.len() - sh.len()]); }
+    }
+}
+} // verus!
+verus! {
+pub proof fn lemma_join_len(l: Seq<Seq<u8>>, s: Seq<u8>)
+    ensures join_slash(l.push(s)).len() == join_slash(l).len() + (if l.len() > 0 { 1int } else { 0int }) + s.len(),
+{
+    lemma_join_push(l, s);
+}
+pub proof fn lemma_join_drop(l: Seq<Seq<u8>>)
+    requires l.len() > 0,
+    ensures join_slash(l.drop_last()).len() <= join_slash(l).len(), l.len() >= 2 ==> join_slash(l.drop_last()).len() + 1 <= join_slash(l).len(),
+{
+    if l.len() == 1 { assert(l.drop_last().len() == 0); }
+}
+/// normalisation never lengthens: the joined normalized sequence is no longer than the joined input,
+/// and has no more segments
+pub proof fn lemma_norm_len(l: Seq<Seq<u8>>, relative: bool)
+    ensures
+        norm_fold(l, relative).len() <= l.len(),
+        join_slash(norm_fold(l, relative)).len() <= join_slash(l).len(),
+    decreases l.len()
+{
+    if l.len() > 0 {
+        let l0 = l.drop_last();
+        let s = l.last();
+        lemma_norm_len(l0, relative);
+        let n0 = norm_fold(l0, relative);
+        assert(l =~= l0.push(s));
+        lemma_join_len(l0, s);
+        lemma_join_len(n0, s);
+        if n0.len() > 0 { lemma_join_drop(n0); }
+    }
+}
+/// the joined segment sequence of a path is the path without its leading '/'
+pub proof fn lemma_join_split(p: Seq<u8>, i: int)
+    requires 0 <= i <= p.len(),
+    ensures join_slash(split_from(p, i)) =~= p.subrange(i, p.len() as int), split_from(p, i).len() <= p.len() - i + 1,
+    decreases p.len() - i
+{
+    lemma_first_of_bounds(p, i, C_SLASH);
+    let e = first_of(p, i, C_SLASH);
+    if e < p.len() {
+        lemma_join_split(p, e + 1);
+        lemma_join_front(p.subrange(i, e), split_from(p, e + 1));
+        lemma_split_nonempty(p, e + 1);
+        assert(split_from(p, i) =~= seq![p.subrange(i, e)] + split_from(p, e + 1));
+        assert(p.subrange(i, p.len() as int) =~= p.subrange(i, e) + sq1(47) + p.subrange(e + 1, p.len() as int));
+    }
+}
+pub proof fn lemma_join_front(s: Seq<u8>, l: Seq<Seq<u8>>)
+    requires l.len() > 0,
+    ensures join_slash(seq![s] + l) =~= s + sq1(47) + join_slash(l),
+    decreases l.len()
+{
+    let all = seq![s] + l;
+    assert(all.drop_last() =~= seq![s] + l.drop_last());
+    assert(all.last() == l.last());
+    if l.len() == 1 {
+        assert(all.drop_last() =~= seq![s]);
+        assert(join_slash(all.drop_last()) == s);
+    } else {
+        lemma_join_front(s, l.drop_last());
+    }
+}
+pub proof fn lemma_normalize_len(p: Seq<u8>, fa: bool, at0: bool)
+    ensures
+        norm_segs(p).len() <= p.len() + 1,
+        join_slash(norm_segs(p)).len() + p_first_off(p) <= p.len(),
+        normalize_text(p, fa, at0).len() <= p.len() + 2,
+{
+    lemma_norm_len(segs(p), !p_is_abs(p));
+    if !p_is_empty(p) { lemma_join_split(p, p_first_off(p)); }
+}
+/// a prefix of a sequence joins to something no longer than the whole
+pub proof fn lemma_join_prefix_len(a: Seq<Seq<u8>>, b: Seq<Seq<u8>>)
+    ensures join_slash(a).len() <= join_slash(a + b).len(),
+    decreases b.len()
+{
+    if b.len() > 0 {
+        lemma_join_prefix_len(a, b.drop_last());
+        assert((a + b).drop_last() =~= a + b.drop_last());
+        assert(a + b =~= (a + b.drop_last()).push(b.last()));
+        lemma_join_len(a + b.drop_last(), b.last());
+    } else {
+        assert(a + b =~= a);
+    }
+}
+} // verus!
